@@ -65,6 +65,12 @@ pub struct Scenario {
     /// copy of the null device: it exists, it is no regular file, reading it yields nothing
     #[serde(default)]
     pub devices: Vec<String>,
+    /// directory aliases: symbolic link (scratch-relative) -> the directory it points to (an empty
+    /// directory beside a search directory). One caller path or `.includepath` argument is spelled
+    /// through it as `<link>/../<dir>`: the kernel leaves the link's *target* with the "..", so the
+    /// spelling names the search directory; a tool that tidies paths lexically ends up elsewhere.
+    #[serde(default)]
+    pub dirlinks: BTreeMap<String, String>,
     /// files (and with them their directories) that are not there when the build starts and
     /// appear - put there by someone else - when the parser is about to take its k-th line:
     /// (files, k). If no lookup of one of their names happened before that moment, the build
@@ -620,7 +626,7 @@ pub fn scenario_with(seed: u64, g: u64, layout: &Layout) -> Scenario {
     let abs_main = tg.r.chance(1, 3);
     let main = if abs_main { format!("$R/{}", main_file) } else { rel_from(&cwd, &main_file) };
     // caller paths: those used, sometimes an unused extra, absolute or relative to the cwd
-    let mut paths = vec![];
+    let mut paths: Vec<String> = vec![];
     for (k, d) in caller_dirs.iter().enumerate() {
         if tg.used_caller.contains(&k) || tg.r.chance(1, 2) {
             paths.push(if tg.r.chance(1, 2) { format!("$R/{}", d) } else { rel_from(&cwd, d) });
@@ -644,6 +650,62 @@ pub fn scenario_with(seed: u64, g: u64, layout: &Layout) -> Scenario {
     }
     // device nodes only on a disk the tree has for itself
     let devices: Vec<String> = if layout.cwd.is_none() { tg.devices.iter().map(|i| format!("{}/{}", tg.files[*i].0, tg.files[*i].1)).filter(|p| files.get(p).map(|t| t.trim().is_empty()).unwrap_or(false) && !symlinks.contains_key(p)).collect() } else { vec![] };
+    // now and then one search directory is spelled through a directory alias: `<link>/../<dir>`
+    let mut dirlinks: BTreeMap<String, String> = BTreeMap::new();
+    if layout.cwd.is_none() && !raw && tg.r.chance(1, 5) {
+        // candidates: (Some(index of caller path) | None + (file, line index), directory it names, was absolute, base dir of a relative spelling)
+        let mut cands: Vec<(Option<usize>, Option<(String, usize)>, String, bool, String)> = vec![];
+        for (i, p) in paths.iter().enumerate() {
+            if p.contains("no such dir") {
+                continue;
+            }
+            if let Some(d) = incmodel::join_norm(&cwd, p) {
+                cands.push((Some(i), None, d, p.starts_with("$R"), cwd.clone()));
+            }
+        }
+        for (k, t) in &files {
+            if symlinks.contains_key(k) {
+                continue;
+            }
+            for (li, l) in t.lines().enumerate() {
+                if let Some(arg) = incmodel::parse_includepath(l) {
+                    if let Some(d) = incmodel::join_norm(incmodel::dirname(k), &arg) {
+                        cands.push((None, Some((k.clone(), li)), d, arg.starts_with("$R"), incmodel::dirname(k).to_string()));
+                    }
+                }
+            }
+        }
+        cands.retain(|c| c.2.contains('/') && !c.2.contains('"'));
+        if !cands.is_empty() {
+            let c = cands[tg.r.usize(cands.len())].clone();
+            let parent = incmodel::dirname(&c.2).to_string();
+            let target = format!("{}/zzq0", parent);
+            let tpre = format!("{}/", target);
+            if !files.contains_key(&target) && !files.keys().any(|k| k.starts_with(&tpre)) {
+                let link = "links/l0/deep/L0".to_string();
+                let spelled = if c.3 { format!("$R/{}/../{}", link, basename(&c.2)) } else { format!("{}/../{}", rel_from(&c.4, &link), basename(&c.2)) };
+                match (&c.0, &c.1) {
+                    (Some(i), _) => paths[*i] = spelled,
+                    (None, Some((k, li))) => {
+                        let t = files.get(k).cloned().unwrap_or_default();
+                        let eol = if t.contains("\r\n") { "\r\n" } else { "\n" };
+                        let ends = t.ends_with('\n');
+                        let mut ls: Vec<String> = t.lines().map(|l| l.to_string()).collect();
+                        if let Some(arg) = incmodel::parse_includepath(&ls[*li]) {
+                            ls[*li] = ls[*li].replacen(&format!("\"{}\"", arg), &format!("\"{}\"", spelled), 1);
+                        }
+                        let mut nt = ls.join(eol);
+                        if ends {
+                            nt.push_str(eol);
+                        }
+                        files.insert(k.clone(), nt);
+                    }
+                    _ => {}
+                }
+                dirlinks.insert(link, target);
+            }
+        }
+    }
     let cfgs = ["free", "twice", "missing", "enum", "enum", "enum", "pair", "cap", "nonutf8", "enum", "twice", "appear"];
     let config = cfgs[tg.r.usize(cfgs.len())].to_string();
     let sc = Scenario {
@@ -663,6 +725,7 @@ pub fn scenario_with(seed: u64, g: u64, layout: &Layout) -> Scenario {
         then_remove: vec![],
         symlinks,
         devices,
+        dirlinks,
         appear: None,
         intent: prog.intent,
         config,
@@ -731,6 +794,16 @@ impl Disk {
                 None if bytes.iter().all(|b| b.is_ascii_whitespace()) && sc.devices.contains(p) && make_null_device(&fp) => {}
                 None => std::fs::write(&fp, bytes).map_err(|e| format!("write {}: {}", p, e))?,
             }
+        }
+        // directory aliases and the (empty) directories they point to
+        for (l, t) in &sc.dirlinks {
+            let tp = self.root.join(pb(t));
+            std::fs::create_dir_all(&tp).map_err(|e| e.to_string())?;
+            let lp = self.root.join(pb(l));
+            if let Some(d) = lp.parent() {
+                std::fs::create_dir_all(d).map_err(|e| e.to_string())?;
+            }
+            std::os::unix::fs::symlink(&tp, &lp).map_err(|e| format!("symlink {}: {}", l, e))?;
         }
         // caller directories exist even when empty
         for d in &sc.paths {
@@ -916,7 +989,7 @@ pub fn edited_files(sc: &Scenario) -> BTreeMap<String, String> {
 /// Judge the second build of a "twice" scenario against the paste of the edited tree.
 fn run_twice(cx: &mut Ctx, sc: &Scenario, seed: u64) -> Option<u64> {
     let files = edited_files(sc);
-    let world = World { files: &files, cwd: &sc.cwd, caller: &sc.paths };
+    let world = World { files: &files, cwd: &sc.cwd, caller: &sc.paths, links: &sc.dirlinks };
     let flat = match incmodel::paste(&world, &sc.main_file) {
         Ok(f) => f,
         Err(e) => {
@@ -1269,7 +1342,7 @@ struct Base {
 
 fn run_world(cx: &mut Ctx, sc: &Scenario, seed: u64, judge: bool) -> Option<Base> {
     let files = present_files(sc);
-    let world = World { files: &files, cwd: &sc.cwd, caller: &sc.paths };
+    let world = World { files: &files, cwd: &sc.cwd, caller: &sc.paths, links: &sc.dirlinks };
     let pasted = if files.contains_key(&sc.main_file) {
         incmodel::paste(&world, &sc.main_file)
     } else {
@@ -1479,6 +1552,7 @@ pub fn worker(cfg: &WorkerCfg, emit: &mut dyn FnMut(Violation)) -> Stats {
         cx.stats.probe("included_file_with_crlf_line_ends", opened.iter().any(|e| sc.files.get(&e.1).map(|t| t.contains("\r\n")).unwrap_or(false)));
         cx.stats.probe("included_file_without_final_newline", opened.iter().any(|e| sc.files.get(&e.1).map(|t| !t.is_empty() && !t.ends_with('\n')).unwrap_or(false)));
         cx.stats.probe("empty_included_file", opened.iter().any(|e| sc.files.get(&e.1).map(|t| t.trim().is_empty()).unwrap_or(false)));
+        cx.stats.probe("include_found_through_a_search_directory_spelled_via_a_directory_alias_and_dotdot", !sc.dirlinks.is_empty() && profile.iter().any(|e| e.call == Call::Open && e.ret >= 0 && e.path.contains("/L0/../")));
         cx.stats.probe("included_file_is_a_symbolic_link_and_includes_a_sibling", opened.iter().any(|e| sc.symlinks.contains_key(&e.1) && sc.files.get(&e.1).map(|t| t.lines().any(|l| parse_include(l).is_some())).unwrap_or(false)));
         cx.stats.probe("cwd_deep_below_the_root", sc.cwd.contains('/'));
         cx.stats.probe("cwd_is_the_main_files_directory", incmodel::dirname(&sc.main_file) == sc.cwd);
@@ -1546,7 +1620,7 @@ pub fn worker(cfg: &WorkerCfg, emit: &mut dyn FnMut(Violation)) -> Stats {
                         if !v.main.starts_with("$R") {
                             v.main = rel_from("another_cwd", &v.main_file);
                         }
-                        v.paths = v.paths.iter().map(|p| if p.starts_with("$R") { p.clone() } else { format!("$R/{}", incmodel::join_norm(&sc.cwd, p).unwrap_or_default()) }).collect();
+                        v.paths = v.paths.iter().map(|p| if p.starts_with("$R") { p.clone() } else { format!("$R/{}", incmodel::join_norm_l(&sc.cwd, p, &sc.dirlinks).unwrap_or_default()) }).collect();
                         label = "cwd";
                     }
                     "p" | "P" => {
@@ -1646,7 +1720,7 @@ pub fn worker(cfg: &WorkerCfg, emit: &mut dyn FnMut(Violation)) -> Stats {
                             let pre = format!("{}/", d);
                             sc.files.keys().any(|k| k.starts_with(&pre))
                         };
-                        if let Some(d) = incmodel::join_norm(&sc.cwd, &name).filter(|d| !clash(d)) {
+                        if let Some(d) = incmodel::join_norm_l(&sc.cwd, &name, &sc.dirlinks).filter(|d| !clash(d)) {
                             f.then_remove.push(e.1.clone());
                             f.then_write.insert(d, format!("    ldi r21, {}\n{}", 10 + r.below(200), text));
                             cx.stats.probe("second_build_after_an_include_was_moved", true);
@@ -1679,7 +1753,7 @@ pub fn worker(cfg: &WorkerCfg, emit: &mut dyn FnMut(Violation)) -> Stats {
                     })
                     .collect();
                 let ipdirs: Vec<String> = ipdirs.into_iter().collect();
-                if !ipdirs.is_empty() && base.flat.ambiguous.is_empty() && sc.symlinks.is_empty() {
+                if !ipdirs.is_empty() && base.flat.ambiguous.is_empty() && sc.symlinks.is_empty() && sc.dirlinks.is_empty() {
                     let d = ipdirs[r.usize(ipdirs.len())].clone();
                     let pre = format!("{}/", d);
                     let files: Vec<String> = sc.files.keys().filter(|k| k.starts_with(&pre) && !sc.devices.contains(*k)).cloned().collect();
